@@ -42,7 +42,8 @@ def run_workers(jobs):
 
     def one(job):
         tag, mode, spec = job
-        inp, outp = os.path.join(WORKDIR, tag + ".in.json"), os.path.join(WORKDIR, tag + ".out.json")
+        base = "%s_p%d" % (tag, os.getpid())   # pid-tagged: two concurrent C10 runs must not share worker files
+        inp, outp = os.path.join(WORKDIR, base + ".in.json"), os.path.join(WORKDIR, base + ".out.json")
         with open(inp, "w") as f:
             json.dump(spec, f)
         p = subprocess.run([sys.executable, UTIL, mode, inp, outp], stdout=subprocess.PIPE, stderr=subprocess.STDOUT, text=True,
